@@ -55,7 +55,9 @@ def riemannian_gradient(x,func):
         torchtt.TT: the gradient projected on the tangent space of x.
     """
 
-    l_cores,_  = lr_orthogonal(x.cores, x.R, x.is_ttm)
+    # the base point is a constant here (its cores may be attached to an autograd graph of the caller)
+    x_cores = [c.detach() for c in x.cores]
+    l_cores,_  = lr_orthogonal(x_cores, x.R, x.is_ttm)
     r_cores,_  = rl_orthogonal(l_cores, x.R, x.is_ttm)
     
     is_ttm = x.is_ttm
@@ -65,12 +67,12 @@ def riemannian_gradient(x,func):
     d = len(x.N)
     
     Rs = [ r_cores[0] ]
-    Rs += [ x.cores[i]*0 for i in range(1,d)]
+    Rs += [ x_cores[i]*0 for i in range(1,d)]
     
     # AD part
     for i in range(d):
         Rs[i].requires_grad_(True)
-    Ghats = _delta2cores(x.cores, R, Rs, is_ttm = is_ttm,ortho = [l_cores,r_cores])
+    Ghats = _delta2cores(x_cores, R, Rs, is_ttm = is_ttm,ortho = [l_cores,r_cores])
     fval = func(TT(Ghats))
     fval.backward() 
 
@@ -90,7 +92,7 @@ def riemannian_gradient(x,func):
         
     # print([tf.einsum('ijk,ijl->kl',l_cores[i],Sds[i]).numpy() for i in range(d-1)])
     # delta to TT
-    grad_cores = _delta2cores(x.cores, R, Sds, is_ttm,ortho = [l_cores,r_cores])
+    grad_cores = _delta2cores(x_cores, R, Sds, is_ttm,ortho = [l_cores,r_cores])
     return TT(grad_cores)
         
 def riemannian_projection(Xspace,z):
